@@ -44,7 +44,8 @@ def generate(streams, tier):
             op["order"] = shuffled(rw, range(world["n"])) if rw.random() < 0.3 else None
             op["inplace"] = rw.random() < 0.3
         ops.append(op)
-    return {"kind": kind, "world": world, "config": config, "ops": ops}
+    # one source object for the whole history (conversions must leave their source as it was) or a fresh one per operation
+    return {"kind": kind, "world": world, "config": config, "ops": ops, "shared_model": rw.random() < 0.5}
 
 
 def describe(case):
@@ -100,7 +101,16 @@ def execute(case, ctx):
         ctx.step_no = i
         ctx.steps += 1
         name = op["op"]
-        model = build()
+        shared = bool(case.get("shared_model")) and kind in ("mn", "fg")
+        if shared:
+            if i == 0:
+                shared_model = build()
+                ctx.fault("object_history")
+            model = shared_model
+            if name == "triangulate" and op.get("inplace"):
+                op = dict(op, inplace=False)
+        else:
+            model = build()
         ctx.event(name, {k: v for k, v in op.items() if k != "op"})
         try:
             if name == "to_markov_model":
@@ -166,6 +176,17 @@ def execute(case, ctx):
                 if got_edges != want_edges:
                     ctx.fail("moral_graph", f"{PROP}:fg_graph", {"got": sorted(map(sorted, got_edges)), "want": sorted(map(sorted, want_edges))})
                 _check_joint(ctx, names, card, ref, mn.factors, name)
+            if shared:
+                # the source still holds every original factor exactly once
+                src = list(model.get_factors())
+                if len(src) != len(facs):
+                    ctx.fail("source_intact", f"{PROP}:source_factor_count:{name}", {"got": len(src), "want": len(facs)})
+                else:
+                    arr = joint_of(src, names, card)
+                    scale = max(float(np.abs(ref.arr).max()), 1e-300)
+                    if not close(arr / scale, ref.arr / scale, atol=1e-9, rtol=1e-7):
+                        ctx.fail("source_intact", f"{PROP}:source_changed:{name}", {"Z_got": float(arr.sum()), "Z_want": float(ref.arr.sum())})
+                        return
         except Mismatch as e:
             ctx.fail("labels", f"{PROP}:labels:{name}", str(e))
         except Exception as e:
